@@ -1573,17 +1573,18 @@ end XotModel.Props
   form: `Forest.XCall.writtenParents f c` (Model/FframeSpec.lean) lists the handles whose child list or own value
   the call may change — old and new parent of a moved node with the text children that consolidation may merge, the
   moved node itself when it is a text node, the node for setters, the element and its entry nodes for map updates,
+  the wrapper, its parent and the text children of both for element_unwrap,
   the whole subtree for create_missing_prefixes / deduplicate_namespaces / remove_insignificant_whitespace, nothing
   for node creation and the clones.  Every OTHER live node that is not inside a removed subtree
   (`removedHandles`) and not inside the moved subtree (`movedSubtree`) is live afterwards with the same value and
   the same children (same handles, same order: `Forest.kidHandles`), and keeps its parent when the parent is such a
   node too.
 
-  Domain (`XCall.framed`): append, prepend, insert_after, insert_before, detach, remove, the four value setters,
-  node creation, set_text_consolidation.  NOT in the domain (their frames exist in the `ctx?` form only,
-  `C05_pair_frame_replace / _wrap / _unwrap`, `C05_map_frame`, `C05_clone_node`): any_append, append of an entry
-  node, replace, element_wrap, element_unwrap, clone_node, clone_with_prefixes, the map updates,
-  text_content_mut().set(), remove_insignificant_whitespace, create_missing_prefixes, deduplicate_namespaces.
+  Domain (`XCall.framed`): the nine structural calls append, prepend, insert_after, insert_before, detach, remove,
+  replace, element_wrap, element_unwrap; clone_node; map insert and map remove; the four value setters; node
+  creation; set_text_consolidation.  NOT in the domain (`writtenParents` is defined for them, the frame is not
+  proved): any_append, append of an entry node, clone_with_prefixes, map clear, text_content_mut().set(),
+  remove_insignificant_whitespace, create_missing_prefixes, deduplicate_namespaces.
   Not stated: the nodes strictly inside the moved subtree (they keep value and children too); a parentless node
   staying parentless. -/
 
@@ -1647,5 +1648,39 @@ example :
     ((Forest.XCall.call (.detach 3)).run s).1.forest.kidHandles 12 = [13, 14] ∧
     ((Forest.XCall.call (.detach 3)).run s).1.forest.kidHandles 0 = [1, 2, 9, 10] := by
   decide +kernel
+
+/-- Non-vacuity, the other structural calls on `frameWitness`: `replace(v, r)` (10 by the parentless text 11, merged
+    into `z`): written are `e`, its text children and `r`; `v` is removed; the sibling element `u` = 3 and the other
+    tree keep their children.  `element_unwrap(u)`: written are `u`, its text children `i j m`, `e` and its text
+    children; the other tree keeps its children, `e` gets the normal children of `u`. -/
+example :
+    let s : Store := ⟨frameWitness, Env.fresh⟩
+    let c : Forest.XCall := .call (.replace 10 11)
+    let d : Forest.XCall := .call (.elementUnwrap 3)
+    c.framed = true ∧ (c.run s).2 = .ok ∧ c.writtenParents s.forest = [0, 1, 2, 8, 9, 11] ∧
+    c.removedHandles s.forest = [10] ∧ c.movedSubtree s.forest = [11] ∧
+    (c.run s).1.forest.kidHandles 3 = [4, 5, 6, 7] ∧ (c.run s).1.forest.kidHandles 12 = [13, 14] ∧
+    (c.run s).1.forest.value? 3 = s.forest.value? 3 ∧
+    d.framed = true ∧ (d.run s).2 = .ok ∧ d.writtenParents s.forest = [3, 4, 5, 7, 0, 1, 2, 8, 9] ∧
+    d.removedHandles s.forest = [3] ∧
+    (d.run s).1.forest.kidHandles 12 = [13, 14] ∧ (d.run s).1.forest.kidHandles 6 = [] ∧
+    (d.run s).1.forest.kidHandles 0 = [1, 2, 5, 6, 7, 9, 10] := by
+  decide +kernel
+
+/-- ⟦C05_reachable_frame_general_full⟧ … on every store a history of parses and API calls reaches from
+    `Xot::new()`: no hypothesis on the invariant (`C04_reach_full`). -/
+theorem C05_reachable_frame_general_full (env : Env) (cs : List PCall) (hw : ∀ c ∈ cs, c.wellKinded)
+    (c : Forest.XCall) (hwc : c.wellKinded) (hf : c.framed = true) :
+    let s := ((PStore.init env).run cs).store
+    c.liveArgs s.forest → (c.run s).2 = .ok →
+    ∀ h, s.forest.isLive h = true → h ∉ c.writtenParents s.forest → h ∉ c.removedHandles s.forest →
+      h ∉ c.movedSubtree s.forest →
+      (c.run s).1.forest.isLive h = true ∧
+      (c.run s).1.forest.value? h = s.forest.value? h ∧
+      (c.run s).1.forest.kidHandles h = s.forest.kidHandles h := by
+  intro s hla hok h hl h1 h2 h3
+  have inv : s.forest.Inv := PStore.fph_run_inv cs (PStore.fph_init_inv env) hw
+  obtain ⟨a, b, c', _⟩ := C05_frame_general inv hwc hf hla hok hl h1 h2 h3
+  exact ⟨a, b, c'⟩
 
 end XotModel.Props
